@@ -2151,3 +2151,66 @@ mod tests {
         assert_eq!(200000000000, capacity);
     }
 }
+
+/// verification hook (off unless built with `--cfg ckb_verif`): the crate-private `Indexer` over its own
+/// `RocksdbStore` with a caller-chosen retention (the service hard-codes keep_num 100 / prune_interval 1000),
+/// plus a query handle on the same store.
+#[cfg(ckb_verif)]
+pub mod verif {
+    use super::*;
+    use ckb_indexer_sync::IndexerSync;
+
+    /// `Indexer<RocksdbStore>` with chosen `keep_num` / `prune_interval`
+    pub struct VerifIndexer {
+        inner: Indexer<RocksdbStore>,
+        store: RocksdbStore,
+    }
+
+    impl VerifIndexer {
+        /// open (or create) the store at `path`
+        pub fn open(path: &std::path::Path, keep_num: u64, prune_interval: u64) -> Self {
+            let store = RocksdbStore::new(&RocksdbStore::default_options(), path);
+            let inner = Indexer::new(
+                store.clone(),
+                keep_num,
+                prune_interval,
+                None,
+                CustomFilters::new(None, None),
+            );
+            VerifIndexer { inner, store }
+        }
+        /// query handle on the same store (no pool overlay, no request limit)
+        pub fn handle(&self) -> IndexerHandle {
+            IndexerHandle {
+                store: self.store.clone(),
+                pool: None,
+                request_limit: usize::MAX,
+                timeout_limit: Duration::from_secs(600),
+            }
+        }
+        /// `IndexerSync::append`
+        pub fn append(&self, block: &core::BlockView) -> Result<(), Error> {
+            self.inner.append(block)
+        }
+        /// `IndexerSync::rollback`
+        pub fn rollback(&self) -> Result<(), Error> {
+            self.inner.rollback()
+        }
+        /// `IndexerSync::tip`
+        pub fn tip(&self) -> Result<Option<(core::BlockNumber, packed::Byte32)>, Error> {
+            self.inner.tip()
+        }
+        /// `Indexer::prune`
+        pub fn prune(&self) -> Result<(), Error> {
+            self.inner.prune()
+        }
+        /// every row of the store, in key order
+        pub fn rows(&self) -> Vec<(Vec<u8>, Vec<u8>)> {
+            self.store
+                .iter([0u8; 0], IteratorDirection::Forward)
+                .expect("iter")
+                .map(|(k, v)| (k.to_vec(), v.to_vec()))
+                .collect()
+        }
+    }
+}
